@@ -1212,6 +1212,36 @@ func (tb *TB) fillInfo(ms ssa.Value, length ssa.Value) *FillInfo {
 	// a fill through them partial.
 	partial := map[ssa.Value]bool{}
 	work := []ssa.Value{ms}
+	// a local array sliced more than once (`var b [16]byte; rand.Read(b[:]); use(b[:])`): every
+	// slice of the array is a view of the same buffer
+	if sl, ok := ms.(*ssa.Slice); ok && sl.Low == nil && sl.High == nil {
+		if al, ok := sl.X.(*ssa.Alloc); ok && al.Referrers() != nil {
+			if _, isArr := al.Type().(*types.Pointer).Elem().Underlying().(*types.Array); isArr {
+				onlySlices := true
+				var sibs []*ssa.Slice
+				for _, r := range *al.Referrers() {
+					switch x := r.(type) {
+					case *ssa.Slice:
+						sibs = append(sibs, x)
+					case *ssa.DebugRef:
+					default:
+						onlySlices = false
+					}
+				}
+				if onlySlices {
+					for _, s2 := range sibs {
+						if s2 != sl && !fi.Views[s2] {
+							fi.Views[s2] = true
+							if s2.Low != nil || s2.High != nil {
+								partial[s2] = true
+							}
+							work = append(work, s2)
+						}
+					}
+				}
+			}
+		}
+	}
 	for len(work) > 0 {
 		v := work[0]
 		work = work[1:]
